@@ -137,8 +137,8 @@ Definition stuffed (s : list Z) : Prop := exists bs, s = stuff bs.
 Lemma rst_byte : forall m, (208 + Z.land m 7 =? 0) = false /\ is_rst (208 + Z.land m 7) = true.
 Proof.
   intros m. assert (H : 0 <= Z.land m 7 <= 7).
-  { change 7 with (Z.ones 3). rewrite Z.land_ones by lia. change (2 ^ 3) with 8.
-    pose proof (Z.mod_pos_bound m 8 ltac:(lia)). lia. }
+  { assert (E : Z.land m 7 = m mod 8) by (change 7 with (Z.ones 3); rewrite Z.land_ones by lia; reflexivity).
+    rewrite E. pose proof (Z.mod_pos_bound m 8 ltac:(lia)). lia. }
   split.
   - destruct (Z.eqb_spec (208 + Z.land m 7) 0); [lia | reflexivity].
   - unfold is_rst. destruct (Z.leb_spec 208 (208 + Z.land m 7)); [|lia].
@@ -297,8 +297,8 @@ Proof.
       { unfold zlen. rewrite (Hc3 ltac:(discriminate)). unfold n. lia. }
       rewrite Hfull. cbn [Z.add].
       replace ri with (1 * ri) at 2 by lia. change 0 with (1 - 1) at 1.
-      rewrite (rst_outer codes dcT acT tabs ri ivs (length xs) (y :: ys) 1 st' preds' Hri); try lia; try assumption.
-      * reflexivity.
-      * rewrite <- El'. fold l'. unfold l' at 1. rewrite skipn_length. cbn [length]. lia.
-      * reflexivity.
+      assert (Hlen' : (length (y :: ys) <= length xs)%nat) by (unfold l in Hc4; cbn [length] in *; lia).
+      assert (Hsk : skipn (Z.to_nat 1) ivs = map (enc_scan_bytes codes tabs) (chunk_go (length xs) (Z.to_nat ri) (y :: ys))) by reflexivity.
+      rewrite (rst_outer codes dcT acT tabs ri ivs (length xs) (y :: ys) 1 st' preds' Hri Hlen' ltac:(lia) Lp Hsk Hokr).
+      reflexivity.
 Qed.
